@@ -191,6 +191,12 @@ def build_conn(spec: Spec, rng) -> Conn:
             keylog.append(f"EXPORTER_SECRET {cr.hex()} {sec['exp'].hex()}")
         keylog.append(f"CLIENT_TRAFFIC_SECRET_0 {cr.hex()} {sec['cap'].hex()}")
         keylog.append(f"SERVER_TRAFFIC_SECRET_0 {cr.hex()} {sec['sap'].hex()}")
+        if spec.keylog_extra and cr[0] % 4 == 0:
+            # a client that offered early data (and sent none, or was refused): libraries log its early traffic secret - and the early exporter secret - under the same
+            # client random when the ClientHello goes out, i.e. first; tools that merge or sort key logs put them anywhere
+            early = [f"CLIENT_EARLY_TRAFFIC_SECRET {cr.hex()} {hashlib.new(hname, cr).digest().hex()}"] + ([f"EARLY_EXPORTER_SECRET {cr.hex()} {hashlib.new(hname, sr).digest().hex()}"] if cr[2] % 2 else [])
+            at = [0, 0, len(keylog), len(keylog) - 1][cr[1] % 4]
+            keylog[at:at] = early
         k = {n: refkdf.tls13_traffic_keys(hname, s, p["key_len"]) for n, s in sec.items() if n != "exp"}
         cw = refrec.Writer(v, p, k["chs"][0], k["chs"][1], None, rng)
         sw = refrec.Writer(v, p, k["shs"][0], k["shs"][1], None, rng)
